@@ -114,40 +114,56 @@ class Stats:
 
 
 def walk(graph, adapter, labels, own, stats, start=None, targets=None, known_ok=None):
-    """Replay one behaviour given as a list of (name, args). Returns None or a violation dict."""
-    cur = start if start is not None else graph.init[0]
-    adapter.reset(graph.states[cur])
+    """Replay one behaviour given as a list of (name, args). Returns None or a violation dict.
+
+    Where the specification is nondeterministic in something the step's observation does not show (adapter.multi:
+    e.g. the position at which a started coroutine joins the line, visible only in the next frame), the walker
+    tracks the SET of model states that explain everything observed so far instead of committing to one."""
+    multi = getattr(adapter, 'multi', False)
+    first = start if start is not None else graph.init[0]
+    curs = [first]
+    adapter.reset(graph.states[first])
     stats.paths += 1
     done = []
     for k, (name, args) in enumerate(labels):
-        pre = graph.states[cur]
-        cands = graph.succ(cur, name, args)
-        if not cands:
+        pre = graph.states[curs[0]]
+        pairs = []
+        for c in curs:
+            cs = graph.succ(c, name, args)
+            if targets is not None and targets[k] in cs:
+                cs = [targets[k]] + [x for x in cs if x != targets[k]]
+            pairs += [(c, d) for d in cs]
+        if not pairs:
             return None      # label not enabled here (random walk drifted after following the code's choice)
-        if targets is not None and targets[k] in cands:
-            cands = [targets[k]] + [c for c in cands if c != targets[k]]
+        if len(curs) > 1 and name in getattr(adapter, 'needs_pre', ()):
+            # the adapter derives the call from the model's pre-state, which is ambiguous here: stop, do not guess
+            stats.extra['abandoned_ambiguous_pre_state'] = stats.extra.get('abandoned_ambiguous_pre_state', 0) + 1
+            return None
         obs = adapter.step(name, args, pre)
         stats.steps += 1
         stats.actions[name] = stats.actions.get(name, 0) + 1
         for f, v in obs.items():
             if v is SKIP:
                 stats.extra['whitebox_facet_skipped:' + f] = stats.extra.get('whitebox_facet_skipped:' + f, 0) + 1
-        chosen = None
+        matched = []
         best = None
         foreign_only = None
-        for d in cands:
-            exp = adapter.expect(name, args, pre, graph.states[d])
+        for c, d in pairs:
+            exp = adapter.expect(name, args, graph.states[c], graph.states[d])
             bad = [f for f in exp if not _eq(obs.get(f), exp[f])]
             if not bad:
-                chosen = d
-                break
+                if d not in [m[1] for m in matched]:
+                    matched.append((c, d))
+                if not multi:
+                    break
+                continue
             own_bad = [f for f in bad if own is None or f in own]
             if not own_bad and foreign_only is None:
                 foreign_only = (d, bad)
             if best is None or len(own_bad) < len(best[1]):
                 best = (d, own_bad, exp)
         done.append([name, tla.to_json(args)])
-        if chosen is None:
+        if not matched:
             if foreign_only is not None:
                 stats.abandoned += 1
                 for f in foreign_only[1]:
@@ -155,7 +171,7 @@ def walk(graph, adapter, labels, own, stats, start=None, targets=None, known_ok=
                 return None
             d, own_bad, exp = best
             return {
-                'init_state': tla.to_json(graph.states[start if start is not None else graph.init[0]]),
+                'init_state': tla.to_json(graph.states[first]),
                 'labels': done,
                 'failing_step': k,
                 'action': [name, tla.to_json(args)],
@@ -163,10 +179,12 @@ def walk(graph, adapter, labels, own, stats, start=None, targets=None, known_ok=
                 'facets': own_bad,
                 'expected': {f: (repr(exp[f]) if callable(exp[f]) else tla.to_json(exp[f])) for f in own_bad},
                 'observed': {f: _trunc(tla.to_json(obs.get(f))) for f in own_bad},
-                'n_candidates': len(cands),
+                'n_candidates': len(pairs),
             }
-        stats.edges.add((cur, name, args, chosen))
-        cur = chosen
+        stats.edges.add((matched[0][0], name, args, matched[0][1]))
+        if len(matched) > 1:
+            stats.extra['steps_with_several_explanations'] = stats.extra.get('steps_with_several_explanations', 0) + 1
+        curs = [m[1] for m in matched]
     fin = getattr(adapter, 'finish', None)
     if fin:
         fin(stats)
